@@ -378,6 +378,33 @@ class C12(IRCheck):
                             gs.append([case("a%d" % k, "purge", t, root, envs)])
                             gs.append([case("b%d" % k, "setwidth", t, root, envs, w=rng.choice([1, 2, 3, 4, 8, 16]))])
                             k += 1
+        # adapters over value-limiting operations: a narrowing adapter on top of a shift (right / left, by every constant
+        # amount, by a register) or a division, consumed by something wider - "the operand cannot have those bits anyway"
+        # reasoning must be exact in bits
+        for wa in (2, 4, 8):
+            for wgd in (1, 2, 4):
+                if wgd >= wa:
+                    continue
+                for sh in sorted(set(range(0, 8 * wa + 1, 1 if wa <= 4 else 3)) | {8 * (wa - wgd) - 1, 8 * (wa - wgd), 8 * (wa - wgd) + 1}):
+                    for op in (3, 2, 5):
+                        t = Table()
+                        x = t.reg("r1", wa)
+                        amount = t.constn(sh if op != 5 else max(1, sh), rng.choice([1, 2, wa]))
+                        inner = t.bin(op, x, amount, wa)
+                        a = t.wg(inner, wgd)
+                        wc = rng.choice([w for w in (2, 4, 8) if w > wgd])
+                        ctx = rng.choice(["bin", "less", "nest", "binr"])
+                        if ctx == "bin":
+                            root = t.bin(1, a, t.reg("r2", wc), wc)
+                        elif ctx == "binr":
+                            root = t.bin(rng.choice([1, 4, 6]), t.reg("r2", wc), a, wc)
+                        elif ctx == "less":
+                            root = t.less(a, t.reg("r2", wc), a, t.const([1]), wc)
+                        else:
+                            root = t.bin(1, t.wg(a, wc), t.constn(1, 1), wc)
+                        envs = make_envs(rng, t.regs(), t.mems(), 5)
+                        gs.append([case("v%d" % k, "purge", t, root, envs)])
+                        k += 1
         # additions that only LOOK like a width adapter: x + C with a non-zero C whose low byte(s) are zero, in every
         # operand order, width relation and context in which adapters are pruned
         for wx in (1, 2, 4, 8):
